@@ -306,3 +306,16 @@ Proof.
   destruct (c_B_STRING_TYPE =? tc'); [|reflexivity].
   destruct (repr_nth idx r) as [i|]; [|reflexivity]. destruct i; reflexivity.
 Qed.
+
+(* the two statements the property file quotes in one piece *)
+Theorem nan_compare_table eb mb x y :
+  f_is_nan eb mb x = true \/ f_is_nan eb mb y = true ->
+  forall op, ord_test op (f_ord eb mb x y) = (op =? c_NQF_OP_NOT_EQUAL_TO).
+Proof.
+  intros [H|H] op; [rewrite nan_unordered_l by exact H|rewrite nan_unordered_r by exact H]; apply unordered_table.
+Qed.
+
+Theorem zeros_equal :
+  (f_ord 8 23 2147483648 0 = OEq /\ f_ord 8 23 0 2147483648 = OEq) /\
+  (f_ord 11 52 9223372036854775808 0 = OEq /\ f_ord 11 52 0 9223372036854775808 = OEq).
+Proof. exact (conj f32_zeros_equal f64_zeros_equal). Qed.
